@@ -40,7 +40,7 @@ func (check) Cases(tier string) int {
 }
 
 func (check) Rule() string {
-	return "each case builds one shared config rich in dynamic values (references, splices, resolver-provided text that parses into objects and lists, nil values, settings captured as *Config) and lets 2-32 goroutines perform a shuffled mix of reads on it at the same time (Unpack into interface{}/typed struct/*Config capture, String/Int/Bool getters, Child, Has, CountField, GetFields, Path, FlattenedKeys, using it and a captured sub-config as merge source, directly and through cfgutil.Collector.Add followed by another Add), 10 rounds per config, preceded by 3 cold rounds in which the goroutines are the first readers of a freshly built identical config (lazily initialised state is initialised under concurrency); the worker is built with the Go race detector (reports counted from the race log per case); at the yield hook inside dynamic value evaluation a PRNG-chosen goroutine yields or sleeps 0-50us; every result is compared with the sequential baseline taken before the goroutines start; the non-evaluating fingerprint of the shared config is compared before/after every round. Fourth wave, per case: (a) option-set twins - 24 isomorphic configs whose every name, path element, struct tag and reference carries a token unique for (case, instance), so that nothing in the process has parsed/resolved/reflected on them before; 12 option sets (a drawn base over PathSep none/./slash, EscapePath, MaxIdx, EnableNumKeys, StructTag, ValidatorTag, Env of two configs, Resolve of two resolvers, Replace/Append/PrependValues; the base with each of the 9 dimensions flipped alone; 2 more drawn sets); instance j is read FIRST under set j (String/Has/CountField of 12 names incl. bracketed names holding the separator, numeric elements, a purely numeric name, references into Env/resolvers; Child+Unpack; Unpack into 11 single-field struct types built with reflect.StructOf whose tags carry the names, a second tag and validator tags; Unpack(map), FlattenedKeys, merge source), which gives the answer of that reader alone; then every set is run on every instance in a drawn order (both orders of every pair occur) and, on 12 untouched instances, by all goroutines at once - every answer must be the one its option set got alone; (b) 2-4 ordinary Unpack calls into ONE target value with *Config, []*Config, map[string]*Config, **Config fields (zero or pre-filled with configs of the caller's own), drawn from two configs, two Env configs and four merge policies: none of the four configs may change (fingerprint and rendering after every call), then the same with one target per goroutine while the configs are read. Fifth wave: the shared configs (and the configs of (b)) hold EMPTY objects and lists - literal, as list elements, behind a reference, emptied by Remove before the first read - and lists/objects of plain values only; after every merge with the shared config as source (Merge into an empty and a filled destination, Unpack into a config of the caller's own, cfgutil.Collector, the config embedded in a map, the captured sub-config) the destination lives on: every setting it stores that is no container is overwritten, every dictionary gets a new setting, every list one more element (blank containers both), and the stored state of the source must still be what it was when the case began; each goroutine does one of these per round with a destination of its own. Distinct interleavings are counted from the merged stream of goroutine ids at the hook. Non-trivial = a round in which at least two goroutines overlapped at the hook (interleaving differs from serial order); distinct = distinct (config, round interleaving)."
+	return "each case builds one shared config rich in dynamic values (references, splices, resolver-provided text that parses into objects and lists, nil values, settings captured as *Config) and lets 2-32 goroutines perform a shuffled mix of reads on it at the same time (Unpack into interface{}/typed struct/*Config capture, String/Int/Bool getters, Child, Has, CountField, GetFields, Path, FlattenedKeys, using it and a captured sub-config as merge source, directly and through cfgutil.Collector.Add followed by another Add), 10 rounds per config, preceded by 3 cold rounds in which the goroutines are the first readers of a freshly built identical config (lazily initialised state is initialised under concurrency); the worker is built with the Go race detector (reports counted from the race log per case); at the yield hook inside dynamic value evaluation a PRNG-chosen goroutine yields or sleeps 0-50us; every result is compared with the sequential baseline taken before the goroutines start; the non-evaluating fingerprint of the shared config is compared before/after every round. Fourth wave, per case: (a) option-set twins - 24 isomorphic configs whose every name, path element, struct tag and reference carries a token unique for (case, instance), so that nothing in the process has parsed/resolved/reflected on them before; 12 option sets (a drawn base over PathSep none/./slash, EscapePath, MaxIdx, EnableNumKeys, StructTag, ValidatorTag, Env of two configs, Resolve of two resolvers, Replace/Append/PrependValues; the base with each of the 9 dimensions flipped alone; 2 more drawn sets); instance j is read FIRST under set j (String/Has/CountField of 12 names incl. bracketed names holding the separator, numeric elements, a purely numeric name, references into Env/resolvers; Child+Unpack; Unpack into 11 single-field struct types built with reflect.StructOf whose tags carry the names, a second tag and validator tags; Unpack(map), FlattenedKeys, merge source), which gives the answer of that reader alone; then every set is run on every instance in a drawn order (both orders of every pair occur) and, on 12 untouched instances, by all goroutines at once - every answer must be the one its option set got alone; (b) 2-4 ordinary Unpack calls into ONE target value with *Config, []*Config, map[string]*Config, **Config fields (zero or pre-filled with configs of the caller's own), drawn from two configs, two Env configs and four merge policies: none of the four configs may change (fingerprint and rendering after every call), then the same with one target per goroutine while the configs are read. Fifth wave: the shared configs (and the configs of (b)) hold EMPTY objects and lists - literal, as list elements, behind a reference, emptied by Remove before the first read - and lists/objects of plain values only; after every merge with the shared config as source (Merge into an empty and a filled destination, Unpack into a config of the caller's own, cfgutil.Collector, the config embedded in a map, the captured sub-config) the destination lives on: every setting it stores that is no container is overwritten, every dictionary gets a new setting, every list one more element (blank containers both), and the stored state of the source must still be what it was when the case began; each goroutine does one of these per round with a destination of its own. Sixth wave, per case: five more shared configs (S object shaped with objects, lists, references to them; T; E; two list shaped L0 L1 of plain values, nulls, references, splices, objects, nested lists; O with handles of its lists and objects) are only READ by 30 calls that modify a config of the caller's own: (a) 14 merges (Merge, Unpack into *Config, cfgutil.Collector, Go data) under VarExp and Env(S) / Env(E),Env(S) / Env(S),Env(E) / Env(T),Env(S) and a drawn policy into a destination whose references - top level, below a name, as list elements, through a reference chain of its own - are defined only in S (objects, nested objects, lists, an object in a list, references to these, plain values, an empty object, a default) while the source (S itself, T, Go data) has objects / lists / plain values / references / null under the same names; (b) 16 merges of a struct (14 shapes: Config and *Config field tagged inline, at top level, under a name, next to named fields, behind a pointer / interface, two levels down, in a slice twice, inline of an inline, in Go maps and lists, not inlined) whose field is L0 / L1 / O / a handle of a list or object of O, into an empty or filled destination with and without VarExp / Env(E) and a drawn policy. After every call, after the writes all over the destination that follow, and after the same call again: fingerprint (incl. parent link, holder and stored name of every node) and rendering (Unpack, FlattenedKeys, Path of every child) of all shared configs are what they were; the destination is the same both times; then up to 8 goroutines make all 30 calls in drawn orders with destinations of their own and read the shared configs in between, inside a race-log window of its own. Distinct interleavings are counted from the merged stream of goroutine ids at the hook. Non-trivial = a round in which at least two goroutines overlapped at the hook (interleaving differs from serial order); distinct = distinct (config, round interleaving)."
 }
 
 func (check) Assumptions() []string {
@@ -483,9 +483,13 @@ func (check) Run(seed int64, tier string, idx int, verbose bool) harness.Result 
 		res.Violate("shared-config-modified-by-reads", "the sequential reads changed the stored state of the config: %q vs %q", firstDiff(fp0, fingerprint(shared)), firstDiff(fingerprint(shared), fp0))
 		return res.Done()
 	}
-	raceBefore, _ := raceReports()
 	goroutines := []int{2, 4, 8, 16, 32}[r.Intn(5)]
 	res.SetAdd("goroutines", strconv.Itoa(goroutines))
+	// sixth wave: the shared config as Env of merges into other configs and as
+	// inlined Config field of a merged struct; a generator and a race-log window
+	// of its own, closed before the general accounting starts
+	runEnvInline(res, rand.New(rand.NewSource(harness.Mix(seed, "C11/envinline", idx))), goroutines)
+	raceBefore, _ := raceReports()
 	rounds := 10
 	var hookSeq int64
 	// fourth wave: the same reads under different option sets (process-wide
